@@ -44,6 +44,14 @@ LineOK ==
     [] e.k = "hsreal" ->
          \* a header that is not acceptable makes mangos drop the connection
          HeaderVerdict(e.sent, e.peer) # "ok" => e.closed = TRUE
+    \* every pattern, cooked and raw, by name: mangos writes the header of its own SP number first, attaches a peer
+    \* that presents its partner's number and drops one that presents another valid SP number
+    [] e.k = "hsname" ->
+         /\ e.name \in SPNames
+         /\ e.b = Header(SPNumber[e.name])
+         /\ e.sent = Header(SPNumber[SPPartner[e.name]]) /\ e.accepted = TRUE
+         /\ HeaderVerdict(e.wrong, SPNumber[SPPartner[e.name]]) = "ErrBadProto"
+         /\ e.wrongclosed = TRUE /\ e.wrongattached = FALSE
     [] e.k = "rrecv" ->
          \* an in-limit frame written by an independent implementation (length field split across
          \* segments) is delivered whole and unchanged
